@@ -876,3 +876,246 @@ func runC12Conc(c *core.Ctx) {
 		c.Probe("linearizable")
 	}
 }
+
+// ---------------------------------------------------------------------------------------------------
+// reference model
+
+// Reference model of the UDP mux routing statement (C12). It is a pure function over a
+// comparable state so that the same code serves the sequential oracle (apply the ops in
+// order, compare every observation) and the porcupine linearizability model.
+
+const (
+	c12MaxConn = 16
+	c12MaxH    = 16
+	c12MaxU    = 4
+	c12MaxAddr = 6
+	c12QLen    = 8
+)
+
+const (
+	c12OpGet = iota
+	c12OpWrite
+	c12OpIn
+	c12OpRemove
+	c12OpClose
+	c12OpMuxClose
+	c12OpRead
+)
+
+var c12OpName = []string{"GetConn", "WriteTo", "Inbound", "RemoveConnByUfrag", "Close", "MuxClose", "Read"}
+
+// c12St is the model state. Indices are stored +1 so that the zero value means "none".
+type c12St struct {
+	MuxClosed bool
+	NConn     int8
+	CU, CF    [c12MaxConn]int8
+	CReg      [c12MaxConn]bool // registered under (CU,CF)
+	CClosed   [c12MaxConn]bool
+	CRefs     [c12MaxConn]int8
+	Reg       [c12MaxU][2]int8           // ufrag x family -> conn+1
+	Bind      [c12MaxAddr]int8           // canonical remote address -> conn+1 (most recent writer)
+	HConn     [c12MaxH]int8              // handle -> conn+1 (0: not handed out)
+	HClosed   [c12MaxH]bool              // handle closed by its user
+	Q         [c12MaxConn][c12QLen]int16 // per-connection FIFO of payload+1 (only used by the linearizability model)
+	NextIn    int16                      // datagrams are routed in arrival order
+}
+
+// c12Op is the input of one operation.
+type c12Op struct {
+	Kind int
+	U, F int // GetConn / Remove
+	H    int // GetConn (the handle it yields), WriteTo, Close, Read
+	A    int // canonical remote address index (WriteTo, Inbound)
+	SU   int // Inbound: ufrag index named before ':' in a decodable STUN USERNAME, -1 if none/unknown
+	Pay  int // Inbound: payload id
+	Arr  int // Inbound: arrival index at the shared socket
+	// Inbound: Strict = a drop is not excused by concurrency (sequential probe);
+	// EverRead = some reader got this payload.
+	Strict, EverRead bool
+	Desc             string
+}
+
+// c12Res is the output of one operation.
+type c12Res struct {
+	OK  bool
+	Pay int // Read: payload id
+}
+
+func c12Fam(a int) int {
+	if a >= 3 {
+		return 1
+	}
+	return 0
+}
+
+// route is the statement's routing rule: the most recent writer to the source address, else the
+// connection registered for the source's family under the USERNAME's ufrag, else nobody.
+func (s *c12St) route(a, su int) int {
+	if s.MuxClosed {
+		return 0
+	}
+	if k := int(s.Bind[a]); k != 0 {
+		return k
+	}
+	if su >= 0 {
+		return int(s.Reg[su][c12Fam(a)])
+	}
+	return 0
+}
+
+func (s *c12St) dropConn(k int, closed bool) {
+	i := k - 1
+	if s.CReg[i] && int(s.Reg[s.CU[i]][s.CF[i]]) == k {
+		s.Reg[s.CU[i]][s.CF[i]] = 0
+	}
+	s.CReg[i] = false
+	for a := range s.Bind {
+		if int(s.Bind[a]) == k {
+			s.Bind[a] = 0
+		}
+	}
+	if closed {
+		s.CClosed[i] = true
+		s.Q[i] = [c12QLen]int16{}
+	}
+}
+
+func (s *c12St) push(k, pay int) bool {
+	q := &s.Q[k-1]
+	for i := range q {
+		if q[i] == 0 {
+			q[i] = int16(pay + 1)
+			return true
+		}
+	}
+	return false
+}
+
+func (s *c12St) pop(k, pay int) bool {
+	q := &s.Q[k-1]
+	if q[0] != int16(pay+1) {
+		return false
+	}
+	copy(q[:], q[1:])
+	q[c12QLen-1] = 0
+	return true
+}
+
+// c12Step applies op to s. queue says whether the per-connection queues are tracked (linearizability
+// model) or the caller compares deliveries itself (sequential oracle).
+func c12Step(s c12St, in c12Op, out c12Res, queue bool) (bool, c12St) {
+	switch in.Kind {
+	case c12OpGet:
+		if !out.OK {
+			return true, s
+		}
+		if s.MuxClosed {
+			// not covered by the statement: a handle from a closed mux is a handle on a dead connection
+			if int(s.NConn) >= c12MaxConn {
+				return true, s
+			}
+			k := int(s.NConn) + 1
+			s.NConn++
+			s.CU[k-1], s.CF[k-1], s.CClosed[k-1], s.CRefs[k-1] = int8(in.U), int8(in.F), true, 1
+			s.HConn[in.H] = int8(k)
+			return true, s
+		}
+		k := int(s.Reg[in.U][in.F])
+		if k == 0 {
+			if int(s.NConn) >= c12MaxConn {
+				return false, s
+			}
+			k = int(s.NConn) + 1
+			s.NConn++
+			s.CU[k-1], s.CF[k-1], s.CReg[k-1] = int8(in.U), int8(in.F), true
+			s.Reg[in.U][in.F] = int8(k)
+		}
+		s.CRefs[k-1]++
+		s.HConn[in.H] = int8(k)
+		return true, s
+	case c12OpWrite:
+		k := int(s.HConn[in.H])
+		if k == 0 || !out.OK || s.MuxClosed || s.CClosed[k-1] || !s.CReg[k-1] {
+			// no effect: the write failed (closed handle, closed connection) or the connection was removed.
+			// A write that was pending when its handle was closed and still went out counts as a write of
+			// the connection (which lives on through the sibling handles).
+			return true, s
+		}
+		s.Bind[in.A] = int8(k)
+		return true, s
+	case c12OpIn:
+		if queue {
+			if in.Arr != int(s.NextIn) {
+				return false, s
+			}
+			s.NextIn++
+		}
+		dest := s.route(in.A, in.SU)
+		if in.EverRead {
+			if dest == 0 {
+				return false, s
+			}
+			if queue && !s.push(dest, in.Pay) {
+				return false, s
+			}
+			return true, s
+		}
+		if in.Strict && dest != 0 {
+			return false, s
+		}
+		return true, s
+	case c12OpRead:
+		k := int(s.HConn[in.H])
+		if k == 0 || !s.pop(k, out.Pay) {
+			return false, s
+		}
+		return true, s
+	case c12OpRemove:
+		for f := 0; f < 2; f++ {
+			if k := int(s.Reg[in.U][f]); k != 0 {
+				s.dropConn(k, false)
+			}
+		}
+		return true, s
+	case c12OpClose:
+		k := int(s.HConn[in.H])
+		if k == 0 || s.HClosed[in.H] {
+			return true, s
+		}
+		s.HClosed[in.H] = true
+		s.CRefs[k-1]--
+		if s.CRefs[k-1] <= 0 && !s.CClosed[k-1] {
+			s.dropConn(k, true)
+		}
+		return true, s
+	case c12OpMuxClose:
+		s.MuxClosed = true
+		for k := 1; k <= int(s.NConn); k++ {
+			if s.CReg[k-1] {
+				s.dropConn(k, true)
+			}
+		}
+		return true, s
+	}
+	return false, s
+}
+
+func c12DescribeOp(in c12Op, out c12Res) string {
+	switch in.Kind {
+	case c12OpGet:
+		return fmt.Sprintf("GetConn(u%d,fam%d)->h%d ok=%v", in.U, in.F, in.H, out.OK)
+	case c12OpWrite:
+		return fmt.Sprintf("h%d.WriteTo(a%d) ok=%v", in.H, in.A, out.OK)
+	case c12OpIn:
+		return fmt.Sprintf("In#%d(p%d from a%d user=u%d strict=%v read=%v %s)", in.Arr, in.Pay, in.A, in.SU, in.Strict, in.EverRead, in.Desc)
+	case c12OpRead:
+		return fmt.Sprintf("h%d.Read->p%d", in.H, out.Pay)
+	case c12OpRemove:
+		return fmt.Sprintf("RemoveConnByUfrag(u%d)", in.U)
+	case c12OpClose:
+		return fmt.Sprintf("h%d.Close", in.H)
+	case c12OpMuxClose:
+		return "mux.Close"
+	}
+	return "?"
+}
